@@ -221,7 +221,7 @@ pub fn main() {
         let r = engine::catch(|| exec(&case, &mut acc)).unwrap_or_else(|c| Err(format!("panic: {}", c.msg)));
         engine::finish_replay(PROP, p, r);
     }
-    let draws = args.scale(12, 10);
+    let draws = args.scale(30, 5);
     let mut g = vec![];
     let mut x = args.seed.wrapping_mul(0x9E37_79B9_7F4A_7C15) | 1;
     for kind in [Kind::U8, Kind::U64, Kind::Unit, Kind::Tracked, Kind::Zst] {
